@@ -632,9 +632,11 @@ fn ftrl_error(r: &mut Runner) {
     let mut all: Vec<(String, E, bool, bool)> = vec![
         ("InvalidL1Ratio".into(), E::InvalidL1Ratio(1.5), false, true),
         ("InvalidL2Ratio".into(), E::InvalidL2Ratio(-0.5), false, true),
-        ("InvalidAlpha".into(), E::InvalidAlpha(0.0), false, true),
+        ("InvalidAlpha".into(), E::InvalidAlpha(-0.5), false, true),
+        ("InvalidAlpha(0)".into(), E::InvalidAlpha(0.0), false, true),
         ("InvalidBeta".into(), E::InvalidBeta(f32::INFINITY), false, true),
         ("InvalidNFeatures".into(), E::InvalidNFeatures(0), false, false),
+        ("InvalidNFeatures(max)".into(), E::InvalidNFeatures(usize::MAX), false, false),
     ];
     for (n, e, refuses) in linfa_errors() {
         all.push((format!("LinfaError/{}", n), E::LinfaError(e), refuses, false));
